@@ -267,6 +267,75 @@ Proof.
   rewrite !map_map. apply map_ext. intros l. reflexivity.
 Qed.
 
+(* ---- (6) the specification at the strength of the property text: what the monitor evaluates ---- *)
+Lemma carries_weaken c i s : carries_b c i s = true -> carries_p_b c i s = true.
+Proof.
+  unfold carries_b, carries_p_b, display. intros E.
+  apply andb_prop in E. destruct E as [E _]. apply andb_prop in E. destruct E as [E E4].
+  apply andb_prop in E. destruct E as [E E3]. apply andb_prop in E. destruct E as [E1 E2].
+  rewrite E1, E3, E4. destruct (c_qualify c); rewrite E2; cbn; [reflexivity|now rewrite orb_true_r].
+Qed.
+Lemma stmts_weaken c h d : stmts_carry_b c h d = true -> stmts_promised_b c h d = true.
+Proof.
+  unfold stmts_carry_b, stmts_promised_b. rewrite !forallb_forall. intros H s Hs. specialize (H s Hs).
+  destruct (find_info (tree_infos (hv_tree h)) (ns_id s)); [now apply carries_weaken|discriminate].
+Qed.
+Lemma value_src_in ls l ty : In l ls -> l_kind l = KValue ty -> value_src ls (l_src l) (l_soff l) = true.
+Proof.
+  intros Hin K. unfold value_src. apply existsb_exists. exists l. split; [assumption|].
+  now rewrite !Z.eqb_refl, K.
+Qed.
+Lemma edge_p_of_viz c ls l : In l ls -> edge_of_stmt_p ls (viz_link c l) = edge_of_link l.
+Proof.
+  intros Hin. unfold edge_of_stmt_p, edge_of_link, viz_link; cbn [e_src e_sport e_dst e_dport e_label].
+  destruct (value_src ls (l_src l) (l_soff l)) eqn:E; [reflexivity|].
+  destruct (l_kind l) as [ty| | | |] eqn:K; try reflexivity.
+  rewrite (value_src_in ls l ty Hin K) in E. discriminate.
+Qed.
+Lemma render_edges_p c ls : map (edge_of_stmt_p ls) (map (viz_link c) ls) = map edge_of_link ls.
+Proof. rewrite map_map. apply map_ext_in. intros l Hl. now apply edge_p_of_viz. Qed.
+Lemma render_edges_promised_b c h : edges_promised_b h (render c (hv_tree h) (hv_links h)) = true.
+Proof. unfold edges_promised_b, render; cbn [d_edges]. rewrite render_edges_p. apply perm_eqb_refl, edge_eqb_refl. Qed.
+Lemma render_edges_once_p c h : EdgesOnceP h (render c (hv_tree h) (hv_links h)).
+Proof. unfold EdgesOnceP, render; cbn [d_edges]. rewrite render_edges_p. apply Permutation_refl. Qed.
+Lemma str_eqb_eq a b : str_eqb a b = true -> a = b.
+Proof. unfold str_eqb. destruct (list_eqb_spec Z.eqb Z.eqb_spec a b); [auto|discriminate]. Qed.
+Lemma edge_eqb_eq a b : edge_eqb a b = true -> a = b.
+Proof.
+  destruct a as [[[[a1 a2] a3] a4] a5], b as [[[[b1 b2] b3] b4] b5]. cbn. intros E.
+  repeat (apply andb_prop in E; destruct E as [E ?]).
+  repeat match goal with H : Z.eqb _ _ = true |- _ => apply Z.eqb_eq in H end.
+  match goal with H : str_eqb _ _ = true |- _ => apply str_eqb_eq in H end. now subst.
+Qed.
+Lemma edges_promised_b_sound h d : edges_promised_b h d = true -> EdgesOnceP h d.
+Proof. apply perm_eqb_sound. exact edge_eqb_eq. Qed.
+(* the strict statement (non-value edges unlabelled) implies the promised one *)
+Lemma edges_weaken h d : EdgesOnce h d -> EdgesOnceP h d.
+Proof.
+  unfold EdgesOnce, EdgesOnceP. intros P.
+  replace (map (edge_of_stmt_p (hv_links h)) (d_edges d)) with (map edge_of_stmt (d_edges d)); [exact P|].
+  apply map_ext_in. intros e He. unfold edge_of_stmt_p, edge_of_stmt.
+  destruct (value_src (hv_links h) (e_src e) (e_sport e)) eqn:E; [reflexivity|]. f_equal.
+  assert (Hin : In (edge_of_stmt e) (map edge_of_link (hv_links h))).
+  { eapply Permutation_in; [exact P|]. now apply in_map. }
+  apply in_map_iff in Hin. destruct Hin as [l [Hl Hin]]. unfold edge_of_link, edge_of_stmt in Hl.
+  inversion Hl as [[H1 H2 H3 H4 H5]]. destruct (l_kind l) as [ty| | | |] eqn:K; try reflexivity.
+  rewrite <- H1, <- H2, (value_src_in _ l ty Hin K) in E. discriminate.
+Qed.
+Lemma render_meets_promised_spec c h :
+  NoDup (map ni_idx (tree_infos (hv_tree h))) ->
+  perm_eqb Z.eqb (map ni_idx (tree_infos (hv_tree h))) (hv_nodes h) = true ->
+  spec_p_b c h (render c (hv_tree h) (hv_links h)) = true.
+Proof.
+  intros Hnd Hp. unfold spec_p_b.
+  rewrite (render_nodes_once_b c h Hp), (stmts_weaken _ _ _ (render_stmts_carry c h Hnd)), render_edges_promised_b.
+  cbn [render d_top]. now rewrite render_mirrors_perm_b.
+Qed.
+(* a drawing that has the promised content of the model's (the correspondence) is judged like the model's on the
+   clauses about node statements: dropping colours and metadata text does not touch what carries_p_b reads *)
+Lemma carries_p_promised c i s : carries_p_b c i (promised_stmt s) = carries_p_b c i s.
+Proof. reflexivity. Qed.
+
 (* non-vacuity: a three-node hierarchy with one value link *)
 Definition ex_info (i : Z) (n m : nat) : ninfo :=
   {| ni_idx := i; ni_name_q := [100; 46; 120]%Z; ni_name_u := [120]%Z; ni_nin := n; ni_nout := m; ni_meta := [([107]%Z, [49]%Z)] |}.
